@@ -1092,3 +1092,17 @@ fn test_content_sizes_consistency() {
         assert_eq!(len, setup.content_width() * setup.content_height());
     }
 }
+
+#[cfg(datamatrix_verif)]
+pub(crate) mod verif {
+    use super::{SymbolSize, SYMBOL_SIZES};
+
+    pub fn symbol_sizes() -> &'static [SymbolSize] {
+        SYMBOL_SIZES
+    }
+
+    pub fn capacity(size: SymbolSize) -> (usize, usize) {
+        let c = size.capacity();
+        (c.max, c.min)
+    }
+}
